@@ -1,6 +1,7 @@
 """C01 Local zone and hosts data always win over cache and upstream (DESIGN 4, C01)."""
 import vlib
 import rescommon as rc
+import reccommon as rec
 from vlib import Verdict, tlc, workdir, rng
 
 PID = "C01"
@@ -60,6 +61,11 @@ def run(tier):
         for run_ in ln["runs"]:
             kinds[run_["result"]["kind"]] = kinds.get(run_["result"]["kind"], 0) + 1
     v.notes["tv_result_kinds"] = kinds
+    # the recursive / forwarding runs as behaviours of the resolver state machine (Recursive.tla): drift only
+    rec.conformance(v, wd, lines, chunk=200)
+    # C01 in recursive / forwarding mode, exhaustively: the resolver state machine with authoritative local zones and
+    # overrides next to the hints, inside a universe that says otherwise (every order, faults, two questions sharing the cache)
+    rec.explore(v, PID, wd, r_, tier, only=["local zones"])
     if lines:
         ln = lines[len(lines) // 2]
         v.sample({"mode": ln["mode"], "question": ln["runs"][0]["q"], "result": ln["runs"][0]["result"]})
